@@ -126,6 +126,47 @@ T = {
  "C19-6": ("draw_target.rs write_png: rows-per-band computed without .max(1)", "surface at least 16385 pixels wide"),
  "C20-5": ("path_builder.rs Path::transform: scale+offset fast path via euclid's epsilon test", "transform with non-zero off-diagonal entries below 1e-6 applied to coordinates of 1e6 and more"),
  "C20-6": ("path_builder.rs arc(): leading line skipped when a (wrongly computed) current point equals the arc start", "arc() directly after close() when the last vertex before the close is exactly the arc's start"),
+ # round 4 (k = 7, 8): "a different code site, a different kind of trigger, state carried from an earlier call"
+ "C01-7": ("draw_target.rs close(): consumes the current point (take) instead of returning it to the subpath start", "LineTo directly after Close"),
+ "C01-8": ("draw_target.rs push_clip: final rasterizer.reset() dropped", "push_clip; pop_clip; fill on one target (stale edges; an endless loop when the clip path reaches below the surface)"),
+ "C02-7": ("draw_target.rs pop_layer: opacity 255 composited without a mask (clip path ignored)", "clip path in force at pop_layer + opacity 1.0 + destination-erasing layer blend or a clip pushed inside the layer"),
+ "C02-8": ("draw_target.rs pop_layer: early return for an empty layer before the transform is restored", "non-identity transform; layer pushed and popped under an empty clip; a later draw"),
+ "C03-7": ("draw_target.rs pop_layer: opacity mask vector kept across calls and resized (stale opacity)", "two pop_layer calls with different opacities on one target"),
+ "C03-8": ("draw_target.rs composite(): span rect clipped to the surface instead of the open layer's rect", "outer clip popped while the layer is open, then a draw reaching beyond the layer"),
+ "C04-7": ("draw_target.rs stroke(): quick reject on the vertex bounding box grown by width/2", "every vertex off the surface by more than width/2 while a miter tip or a diagonal square cap corner reaches in"),
+ "C04-8": ("stroke.rs cap_line: square cap polygon emitted with the opposite winding", "a square cap overlapping another piece of the same stroke"),
+ "C05-7": ("draw_target.rs push_clip: early return under an empty clip after apply_path (rasteriser not reset)", "empty clip, push_clip(P), pops, then push_clip(B) or a fill"),
+ "C05-8": ("draw_target.rs pop_layer: opaque layers composited without a mask", "clip path at pop time + opacity 1.0 + Src/Clear/SrcIn/DstIn/SrcOut/DstAtop layer blend"),
+ "C06-7": ("draw_target.rs pop_layer: transform folded into the layer image's source transform instead of reset / restore", "a singular transform in force at pop_layer"),
+ "C06-8": ("draw_target.rs pop_layer: fully transparent layers skipped", "empty layer with a destination-erasing blend (Src, Clear, SrcIn, DstIn, SrcOut, DstAtop)"),
+ "C07-7": ("draw_target.rs clip_bounds clamped / composite no longer intersects with the layer bounds", "clip pushed, layer pushed, clip popped, then a draw larger than the layer (panic)"),
+ "C07-8": ("stroke.rs compute_normal: multiplication by the reciprocal of the length", "segment of subnormal length with both components non-zero under a rotation or skew"),
+ "C08-7": ("draw_target.rs line_to/quad_to/cubic_to: segments ending where they start skipped", "a cubic whose end point equals its start point (closed teardrop loop)"),
+ "C08-8": ("draw_target.rs: path cursor reset moved from apply_path into fill()", "push_clip(P) directly followed by fill / push_clip of a path that starts without MoveTo"),
+ "C09-7": ("dash.rs MoveTo arm: a MoveTo to the current point is skipped", "open subpath ending at b followed by MoveTo(b)"),
+ "C09-8": ("dash.rs + stroke.rs: output paths inherit the source path's winding", "dashed stroke of a path flagged EvenOdd"),
+ "C10-7": ("draw_target.rs push_clip_rect moves the mask up, pop_clip hands it back down", "push_clip_rect; push_clip(path); pop_clip: the path keeps clipping"),
+ "C10-8": ("draw_target.rs: popped layer buffer recycled with Vec::resize (old pixels kept)", "two sequential layers on one target"),
+ "C11-7": ("draw_target.rs: cached inverse transform stale after pop_layer / clear", "non-identity T; pop_layer or clear under a clip; image / gradient draw"),
+ "C11-8": ("blitter.rs TransformedNearestImageAlphaShader::new: trailing half-pixel translation dropped", "Nearest image, alpha < 1, non-integer sampling transform"),
+ "C12-7": ("blitter.rs ShaderMaskBlitter::blit_span: shader given the layer-relative row", "gradient drawn into a layer pushed under a clip rect with min.y >= 1"),
+ "C12-8": ("draw_target.rs mask(): transform reset to the identity around the call", "mask() with a gradient source under a non-identity transform"),
+ "C13-7": ("blitter.rs ShaderClipMaskBlitter::blit_span: shader given layer-relative coordinates", "layer with non-zero origin + clip path in force + SrcOver image"),
+ "C13-8": ("blitter.rs ImagePadAlphaShader: pad runs skipped when the alpha-scaled edge texel is 0 (scratch row keeps the previous row)", "Pad fast path, a row whose edge texel is transparent after a row whose edge texel is not"),
+ "C14-7": ("draw_target.rs clear(): slow branch rasterises the clip bounds", "surface-covering clip rect reaching x >= 32768 (16.16 overflow)"),
+ "C14-8": ("blitter.rs MaskBlitter::blit_span: right clamp removed", "antialiasing off + integer rect reaching 2 px or more beyond the right edge (general route panics)"),
+ "C15-7": ("draw_target.rs composite_surface: reads the source's open layer instead of its surface", "source DrawTarget with a layer open"),
+ "C15-8": ("draw_target.rs composite_surface: early return when the destination's transform is not invertible", "singular transform set on the destination"),
+ "C16-7": ("path_builder.rs flatten(): cubic with coincident control points flattened as a quadratic", "CubicTo with cpt1 == cpt2"),
+ "C16-8": ("path_builder.rs flatten(): curves that collapse to a point at the tolerance skipped", "curve whose extent is below the tolerance"),
+ "C17-7": ("path_builder.rs WindState::add_edge: shoelace form of the cross product", "coordinates in the thousands (x*y beyond 2^23) with a short edge level with the query point"),
+ "C17-8": ("path_builder.rs flatten(): subpath start not recorded for a path beginning with LineTo", "LineTo-first path, Close, then a curve"),
+ "C18-7": ("draw_target.rs new_radial_gradient: degenerate radius painted as an unpremultiplied solid", "radial gradient whose radius squared underflows, translucent last stop"),
+ "C18-8": ("blitter.rs image shaders: alpha channel scaled with muldiv255, colour channels with alpha_mul", "integer-translation image shader, translucent texel with a channel near its alpha, global alpha byte 2..117"),
+ "C19-7": ("draw_target.rs write_png: file opened without truncate", "export over an existing longer file"),
+ "C19-8": ("draw_target.rs write_png: all-opaque surfaces written as RGB", "every pixel with alpha 255"),
+ "C20-7": ("path_builder.rs arc(): leading line taken from the first quadratic", "sweep angle exactly 0"),
+ "C20-8": ("path_builder.rs close(): a Close that would be the first op or a repeat is skipped", "close() on an empty builder or twice in a row"),
 }
 rows = []
 for sid, (what, needs) in sorted(T.items()):
